@@ -386,6 +386,14 @@ def bounded(rep, tier):
             continue
         if e_ is not None or plan_ is None:
             continue
+        if qname.startswith('single-'):
+            # every table of these statements lives in one SQL integration: the select is pushed down whole - no model is applied, nothing is joined outside
+            kinds_ = [type(s_).__name__ for s_ in plan_.steps]
+            outside = [k_ for k_ in kinds_ if k_.startswith('Apply') or k_ in ('JoinStep', 'SubSelectStep', 'QueryStep')]
+            if outside and not ('-sub' in qname or '-union' in qname):
+                rep.add_bounded(Bounded(f'C11.bounded.not-pushed-whole.{qname}', False, sc['sql'], f'[{sc["catalog"]}] plan steps {kinds_}: the single-integration select is executed outside the integration',
+                                        'one fetch step for the select', bound='scenario family x catalogs'))
+                break
         left = plans.unstripped_qualifiers(plan_)
         if left:
             integ, ident, text = left[0]
